@@ -6257,3 +6257,119 @@ def jr3(m, run, rule='JR3.json-file-round-trip-of-shapes-and-containers'):
                 raise AnalysisError('%s: interpreter met an unsupported construct: %s' % (key, ex))
             fe = m.func('exchange.export_json')
             run.ob(rule, key, why is None, 'every shape comes back, in order, with its own definition and delta' if why is None else why, 'geomdl/exchange.py:%d in %s' % (fe.node.lineno, fe.key))
+
+
+# ====================================================================================== C09: the six weight converters, exactly
+def ws6(m, run, rule='WS6.weight-converters-exact'):
+    """WS6: the six converters of compatibility.py interpreted on exact symbolic points (coordinates X, weights W, dimension 2 and 3, one
+    point and several, a 2 x 3 grid for the 2-D variants): generate_ctrlptsw[2d] maps (x.., w) to (x w.., w); generate_ctrlpts[2d]_weights
+    maps (xw.., w) to (xw / w.., w); combine_ctrlpts_weights pairs point i with weight i (unit weights when none are given) and appends
+    the weight; separate_ctrlpts_weights returns [points, weights] with point i divided by its own last slot; every result is made of
+    fresh lists, the input is left as it was, and each generate / combine function is inverted by its partner"""
+    from .skel import Sym
+    from .poly import Poly
+
+    def S(rows):
+        return [[Sym(x) for x in r] for r in rows]
+
+    def eq_rows(got, want):
+        if not isinstance(got, (list, tuple)) or len(got) != len(want):
+            return 'returns %r rows, expected %d' % (len(got) if isinstance(got, (list, tuple)) else got, len(want))
+        for i, (g_, w_) in enumerate(zip(got, want)):
+            if not isinstance(g_, (list, tuple)) or len(g_) != len(w_):
+                return 'row %d has %r entries, expected %d' % (i, len(g_) if isinstance(g_, (list, tuple)) else g_, len(w_))
+            for c, (a, b) in enumerate(zip(g_, w_)):
+                s_ = _as_sym(a)
+                if s_ is None or not s_.same(b):
+                    return 'point %d slot %d is %r, expected %r' % (i, c, a, b)
+        return None
+
+    def call(key, args, kw=None):
+        sk = SK(m, {})
+        sk.exact = True
+        return sk.call(m.func(key), args, kw or {})
+    for key in ('generate_ctrlptsw', 'generate_ctrlpts_weights', 'generate_ctrlptsw2d', 'generate_ctrlpts2d_weights', 'combine_ctrlpts_weights', 'separate_ctrlpts_weights'):
+        fi = m.func('compatibility.' + key)
+        bad, cnt = [], 0
+        for dim in (2, 3):
+            for n in (1, 4):
+                cnt += 1
+                X = [[Poly.atom('X%d_%d' % (i, c)) for c in range(dim)] for i in range(n)]
+                W = [Poly.atom('W%d' % i) for i in range(n)]
+                why = None
+                try:
+                    two_d = '2d' in key
+                    if key.startswith('generate'):
+                        mul = 'ctrlptsw' in key
+                        rows = [r + [w] for r, w in zip(X, W)]
+                        want = [[Sym(x * w) if mul else Sym(x, w) for x in r] + [Sym(w)] for r, w in zip(X, W)]
+                        if two_d:
+                            if n == 1:
+                                grid_in, grid_want = [S(rows)], [want]
+                            else:
+                                grid_in, grid_want = [S(rows[:2]), S(rows[2:])], [want[:2], want[2:]]
+                            keep = [[list(p) for p in r] for r in grid_in]
+                            out = call('compatibility.' + key, [grid_in])
+                            if not isinstance(out, (list, tuple)) or len(out) != len(grid_want):
+                                why = 'returns %r rows of points' % (len(out) if isinstance(out, (list, tuple)) else out)
+                            else:
+                                for r_, (g_, w_) in enumerate(zip(out, grid_want)):
+                                    why = eq_rows(g_, w_)
+                                    if why:
+                                        why = 'grid row %d: %s' % (r_, why)
+                                        break
+                            if why is None and any(a is b for ro, ri in zip(out, grid_in) for a in ro for b in ri):
+                                why = 'a point list of the input is handed back in the result'
+                            if why is None and [[list(p) for p in r] for r in grid_in] != keep:
+                                why = 'the input is modified'
+                        else:
+                            inp = S(rows)
+                            keep = [list(p) for p in inp]
+                            out = call('compatibility.' + key, [inp])
+                            why = eq_rows(out, want)
+                            if why is None and any(a is b for a in out for b in inp):
+                                why = 'a point list of the input is handed back in the result'
+                            if why is None and [list(p) for p in inp] != keep:
+                                why = 'the input is modified'
+                        # the partner inverts it
+                        if why is None:
+                            partner = {'generate_ctrlptsw': 'generate_ctrlpts_weights', 'generate_ctrlpts_weights': 'generate_ctrlptsw',
+                                       'generate_ctrlptsw2d': 'generate_ctrlpts2d_weights', 'generate_ctrlpts2d_weights': 'generate_ctrlptsw2d'}[key]
+                            back = call('compatibility.' + partner, [out])
+                            flat_back = [p for r in back for p in r] if two_d else back
+                            why = eq_rows(flat_back, [[Sym(x) for x in r] for r in rows])
+                            if why:
+                                why = '%s does not invert it: %s' % (partner, why)
+                    elif key == 'combine_ctrlpts_weights':
+                        inp, wts = S(X), [Sym(w) for w in W]
+                        out = call('compatibility.' + key, [inp, wts])
+                        why = eq_rows(out, [[Sym(x * w) for x in r] + [Sym(w)] for r, w in zip(X, W)])
+                        if why is None:
+                            out1 = call('compatibility.' + key, [S(X)])
+                            why = eq_rows(out1, [[Sym(x) for x in r] + [Sym(Poly.const(1))] for r in X])
+                            if why:
+                                why = 'without weights: ' + why
+                        if why is None:
+                            back = call('compatibility.separate_ctrlpts_weights', [out])
+                            why = (None if isinstance(back, (list, tuple)) and len(back) == 2 else 'separate does not return [points, weights]') or eq_rows(back[0], S(X)) or eq_rows([back[1]], [[Sym(w) for w in W]])
+                            if why:
+                                why = 'separate_ctrlpts_weights does not invert it: %s' % why
+                    else:
+                        rows = [[x * w for x in r] + [w] for r, w in zip(X, W)]
+                        inp = S(rows)
+                        keep = [list(p) for p in inp]
+                        out = call('compatibility.' + key, [inp])
+                        if not isinstance(out, (list, tuple)) or len(out) != 2:
+                            why = 'does not return [points, weights]'
+                        else:
+                            why = eq_rows(out[0], S(X)) or eq_rows([out[1]], [[Sym(w) for w in W]])
+                        if why is None and [list(p) for p in inp] != keep:
+                            why = 'the input is modified'
+                except Violation as v:
+                    why = '%s %s' % (v.msg, v.where())
+                except Unsupported as ex:
+                    raise AnalysisError('%s: interpreter met an unsupported construct: %s' % (fi.key, ex))
+                if why:
+                    bad.append(('%d point(s) of dimension %d' % (n, dim), why))
+        run.ob(rule, '%s :: %d cases' % (fi.key, cnt), not bad, 'exact coordinate map, own weight per point, fresh lists, input untouched, inverted by its partner' if not bad else
+               '%s: %s   [%d of %d cases]' % (bad[0][0], bad[0][1], len(bad), cnt), 'geomdl/compatibility.py:%d in %s' % (fi.node.lineno, fi.key))
